@@ -164,6 +164,14 @@ def run(ctx):
                 gaps[g] = " /* a */ "
                 gaps[g + d] = " /* b */ "
                 check_variant(ctx, im, base, T.join(slices, gaps), ["two-blocks-same-line"], "block-pairs")
+        # the blank inside `not in` / `else if` written differently (two blanks, tab, line break, CR LF)
+        for wi, ws, text_v in T.inner_whitespace_variants(slices):
+            idx += 1
+            if not ctx.mine(idx):
+                continue
+            base = base or Baseline(ctx, im, slices)
+            if base.ok:
+                check_variant(ctx, im, base, text_v, ["inner-whitespace-of-two-word-keyword"], "inner-whitespace")
         idx += 1
         if ctx.mine(idx):
             base = base or Baseline(ctx, im, slices)
